@@ -1701,6 +1701,15 @@ def unencodable_elsewhere(fam):
         b.step('ucall', c=3, what='bad', to=1000, hp=[])
         b.step('ucall', c=4, pay='after', hp=[ret(pay='fine')])
         out.append(b.q().done())
+        # a unary handler that returns (a reply the codec refuses, nil): no body can be on the wire, the caller must
+        # not see a success, headers and trailers set by the handler still travel, the connection serves the next call
+        for dressed in (False, True):
+            b = B(fam, 'unary handler returns an unencodable reply%s (%s)' % (', headers and trailers set' if dressed else '', 'serialising' if ser else 'by reference'), ser=ser)
+            hp = ([dict(o='sethdr', md=[['hk', 'hv']]), dict(o='settrl', md=[['tk', 'tv'], ['t-bin', '\x00\x01']])] if dressed else []) + [ret(ek='unenc')]
+            b.step('ucall', c=1, pay='warm', hp=[ret(pay='up')])
+            b.step('ucall', c=2, pay='q', hp=hp)
+            b.step('ucall', c=3, pay='after', hp=[ret(pay='fine')])
+            out.append(b.q().done())
         for kind in ('bidi', 'ss'):
             for pos in (0, 1, 2):
                 sends = [dict(o='send', pay='h%d' % i) for i in range(2)]
